@@ -274,4 +274,15 @@ theorem sem_compileS (cfg : Cfg) (hcfg : cfg.junctionKeepsNot = true) {same : Q 
   | .not x => by
     simp only [compileS, evalDirect, sem_invert, sem_compileS cfg hcfg hs key fuel hwf x]
 
+namespace Witness
+
+/-- `(g.centre == 1) & ((g.sigma == 2) & (g.centre == 1))` -/
+def dupPred : Pred Nat :=
+  .and (.path "g" ["centre"] (.num .eq 1)) (.and (.path "g" ["sigma"] (.num .eq 2)) (.path "g" ["centre"] (.num .eq 1)))
+
+/-- `g | (g.centre == 1)` -/
+def bareOr : Pred Nat := .or (.path "g" [] .any) (.path "g" ["centre"] (.num .eq 1))
+
+end Witness
+
 end AF.Query
